@@ -25,43 +25,43 @@ function hook::_get_possible_handler_names() {
   elif BINDING_CONTEXT_CURRENT_TYPE=$(context::jq -er '.type'); then
     case "${BINDING_CONTEXT_CURRENT_TYPE}" in
     "Synchronization")
-      echo __on_kubernetes::${BINDING_CONTEXT_CURRENT_BINDING}::synchronization
-      echo __on_kubernetes::${BINDING_CONTEXT_CURRENT_BINDING}
+      echo "__on_kubernetes::${BINDING_CONTEXT_CURRENT_BINDING}::synchronization"
+      echo "__on_kubernetes::${BINDING_CONTEXT_CURRENT_BINDING}"
     ;;
     "Event")
       case "$(context::jq -r '.watchEvent')" in
       "Added")
-        echo __on_kubernetes::${BINDING_CONTEXT_CURRENT_BINDING}::added
-        echo __on_kubernetes::${BINDING_CONTEXT_CURRENT_BINDING}::added_or_modified
-        echo __on_kubernetes::${BINDING_CONTEXT_CURRENT_BINDING}
+        echo "__on_kubernetes::${BINDING_CONTEXT_CURRENT_BINDING}::added"
+        echo "__on_kubernetes::${BINDING_CONTEXT_CURRENT_BINDING}::added_or_modified"
+        echo "__on_kubernetes::${BINDING_CONTEXT_CURRENT_BINDING}"
       ;;
       "Modified")
-        echo __on_kubernetes::${BINDING_CONTEXT_CURRENT_BINDING}::modified
-        echo __on_kubernetes::${BINDING_CONTEXT_CURRENT_BINDING}::added_or_modified
-        echo __on_kubernetes::${BINDING_CONTEXT_CURRENT_BINDING}
+        echo "__on_kubernetes::${BINDING_CONTEXT_CURRENT_BINDING}::modified"
+        echo "__on_kubernetes::${BINDING_CONTEXT_CURRENT_BINDING}::added_or_modified"
+        echo "__on_kubernetes::${BINDING_CONTEXT_CURRENT_BINDING}"
       ;;
       "Deleted")
-        echo __on_kubernetes::${BINDING_CONTEXT_CURRENT_BINDING}::deleted
-        echo __on_kubernetes::${BINDING_CONTEXT_CURRENT_BINDING}
+        echo "__on_kubernetes::${BINDING_CONTEXT_CURRENT_BINDING}::deleted"
+        echo "__on_kubernetes::${BINDING_CONTEXT_CURRENT_BINDING}"
       ;;
       esac
     ;;
     "Group")
       BINDING_CONTEXT_GROUP_NAME=$(context::jq -er '.groupName')
-      echo __on_group::${BINDING_CONTEXT_GROUP_NAME}
+      echo "__on_group::${BINDING_CONTEXT_GROUP_NAME}"
     ;;
     "Schedule")
-      echo __on_schedule::${BINDING_CONTEXT_CURRENT_BINDING}
+      echo "__on_schedule::${BINDING_CONTEXT_CURRENT_BINDING}"
     ;;
     "Validating")
-      echo __on_validating::${BINDING_CONTEXT_CURRENT_BINDING}
+      echo "__on_validating::${BINDING_CONTEXT_CURRENT_BINDING}"
     ;;
     "Mutating")
-      echo __on_mutating::${BINDING_CONTEXT_CURRENT_BINDING}
+      echo "__on_mutating::${BINDING_CONTEXT_CURRENT_BINDING}"
     ;;
     "Conversion")
-      echo __on_conversion::${BINDING_CONTEXT_CURRENT_BINDING}::$(context::jq -er '[.fromVersion,.toVersion]| map(sub("/";".")) | join("::")')
-      echo __on_conversion::${BINDING_CONTEXT_CURRENT_BINDING}
+      echo "__on_conversion::${BINDING_CONTEXT_CURRENT_BINDING}::$(context::jq -er '[.fromVersion,.toVersion]| map(sub("/";".")) | join("::")')"
+      echo "__on_conversion::${BINDING_CONTEXT_CURRENT_BINDING}"
     ;;
     esac
   fi
